@@ -617,4 +617,76 @@ def rule_forth_width(rep, fb, floor=2):
                 r.fail("internal_run<%s>:narrow#%d" % (targs, bad), "%s:%d" % (f["file"], f["line"]), "stack value %s is implicitly narrowed to %s in ForthMachineOf<%s>::internal_run" % (unparse(cexpr(src))[:50], n[2], targs))
         if not bad:
             r.ok("internal_run<%s>" % targs, "no implicit narrowing of stack values")
+    # the pattern (pre-instantiation) form: what is pushed is a cell of type T; an explicit cast to I - the bytecode type, 32 bits in both machines -
+    # truncates on the 64-bit machine
+    pats = [f for f in fb.lib_funcs(inst=False) if (f["cls"] or "").startswith("ForthMachineOf")]
+    npush = 0
+    for f in pats:
+        for m in find_all(f["body"], lambda n: n[0] == "mcall" and n[1] == "stack_push" and n[4]):
+            npush += 1
+            a = m[4][0]
+            r.check(not (a[0] == "cast" and str(a[2]).strip() == "I"), "%s#stack_push#%d" % (f["qual"], npush), "%s:%d" % (f["file"], m[-1]),
+                    "%s pushes a value cast to I (the 32-bit bytecode type) onto the stack of T cells: ForthMachine64 truncates it to 32 bits" % f["qual"], detail="pushed as T")
+    return r.done()
+
+
+def rule_forth_operand_guards(rep, fb, floor=4):
+    r = rep.rule("GUARD.forth-operands", "values popped from the data stack are user data: (a) a popped repeat count (num_items) is tested for being negative before it is used as a loop bound or a size; "
+                 "(b) every signed `/` or `%` on stack cells is preceded, in its bytecode arm, by tests of the divisor against 0 and against -1 (the most negative integer divided by -1 traps); "
+                 "(c) ForthOutputBuffer::rewind rejects a negative argument", floor=floor)
+    pats = [f for f in fb.lib_funcs(inst=False) if (f["cls"] or "").startswith("ForthMachineOf") and f["name"] == "internal_run"]
+    if not pats:
+        raise AnalysisError("ForthMachineOf::internal_run not found")
+    f = pats[0]
+    from .callsites import each_block_cont, head_exprs
+
+    def neg_const(e, v):
+        return e == ("const", v) or e == ("un", "-", ("const", -v)) or (e[0] == "cast" and neg_const(e[3], v))
+    n = [0, 0]
+
+    def onblock(stmts, cont):
+        for i, s in enumerate(stmts):
+            # (a)
+            if s[0] == "assign" and s[1][0] == "var" and "num" in s[1][1] and s[2][0] == "mcall" and s[2][1] == "stack_pop":
+                v = s[1][1]
+                n[0] += 1
+                tested = any(t[0] == "if" and find_all((t[1],), lambda k: k[0] == "bin" and k[1] in ("<", "<=") and k[2] == ("var", v) and k[3][0] == "const") and cs_has_exit(t) for t in stmts[i + 1:i + 3])
+                r.check(tested, "internal_run#%s=stack_pop#%d" % (v, n[0]), "%s:%d" % (f["file"], s[-1]), "internal_run uses the popped count `%s` without rejecting negative values" % v, detail="if (%s < 0) error" % v)
+            # (b)
+            for e in head_exprs(s):
+                for d in find_all((e,), lambda k: k[0] == "bin" and k[1] in ("/", "%") and k[3][0] != "const"):
+                    div = d[3]
+                    if not find_all((div,), lambda k: (k[0] == "idx") or (k[0] == "var" and k[1] in ("two", "one"))):
+                        continue
+                    n[1] += 1
+                    key = "internal_run#%s#%d" % ("div" if d[1] == "/" else "mod", n[1])
+                    # all statements of the enclosing case arm before this one
+                    arm = None
+                    for pb, pi, pk in cont:
+                        if pk == "switch":
+                            break
+                        arm = pb
+                    prior = []
+                    blk, idx = stmts, i
+                    prior += list(blk[:idx])
+                    for pb, pi, pk in cont:
+                        if pk == "switch":
+                            break
+                        prior += list(pb[:pi])
+                        # an enclosing conditional expression/if that tests the divisor counts too
+                        if pb[pi][0] == "if":
+                            prior.append(("expr", pb[pi][1], 0))
+                    # the divisor test may also be the condition of a ?: around this very division
+                    conds = find_all(tuple(prior) + (s,), lambda k: k[0] == "bin" and k[1] in ("==", "!=") and (k[2] == div or k[3] == div))
+                    z = any(neg_const(c[2], 0) or neg_const(c[3], 0) for c in conds)
+                    m1 = any(neg_const(c[2], -1) or neg_const(c[3], -1) for c in conds)
+                    r.check(z and m1, key, "%s:%d" % (f["file"], s[-1]), "internal_run divides stack cells (%s) without testing the divisor against %s in that bytecode arm" % (d[1], "0" if not z else "-1 (MIN / -1 traps with SIGFPE)"),
+                            detail="divisor tested against 0 and -1")
+    from .callsites import has_exit as cs_has_exit
+    each_block_cont(f["body"], onblock)
+    rew = [g for g in fb.lib_funcs(inst=False) if g["qual"].endswith("ForthOutputBuffer::rewind")]
+    if rew:
+        g = rew[0]
+        ok = bool(find_all(g["body"], lambda k: k[0] == "bin" and k[1] in ("<", "<=") and k[2] == ("var", "num_items") and k[3][0] == "const"))
+        r.check(ok, "ForthOutputBuffer::rewind#negative", "%s:%d" % (g["file"], g["line"]), "ForthOutputBuffer::rewind accepts a negative count (the output grows past what was written)", detail="num_items < 0 rejected")
     return r.done()
